@@ -1014,6 +1014,13 @@ class Interp:
             if m in ("group", "groups", "start", "end", "span"):
                 return getattr(o, m)(*args)
             raise LexUnknown(f"match method {m}")
+        if isinstance(o, bytes) or isinstance(o, W) and all(isinstance(x, bytes) for x in o.ex):
+            if m == "decode":
+                try:
+                    return lift(lambda b, *a: b.decode(*a, **kwargs), o, *args)
+                except (ValueError, TypeError, LookupError) as ex:
+                    raise PyRaise(ex)
+            raise LexUnknown(f"bytes method {m}")
         if isinstance(o, (str, W)):
             if m == "join":
                 seq = self.iterate(args[0])
